@@ -65,6 +65,7 @@ func (ctx *Ctx) cloop(node *node, tpl *Tpl, w io.Writer) {
 		}
 		c++
 		// Loop over child nodes with square brackets check in paths.
+		prevQB := ctx.chQB
 		ctx.chQB = true
 		var err, lerr error
 		child := node.child
@@ -81,7 +82,7 @@ func (ctx *Ctx) cloop(node *node, tpl *Tpl, w io.Writer) {
 				break
 			}
 		}
-		ctx.chQB = false
+		ctx.chQB = prevQB
 
 		// Modify counter var.
 		switch node.loopCntOp {
